@@ -149,6 +149,12 @@ func c03Run(c *engine.Ctx) {
 	}
 	c03Scalars(c)
 	universe.Scale(func(r universe.Recipe) { c03Case(c, r, "method") })
+	universe.IRIPresentations(func(r universe.Recipe) { c03Case(c, r, "pkg") })
+	for i := range universe.Structs {
+		s := &universe.Structs[i]
+		universe.GenericNames(s, universe.Gob, all)
+		universe.ListForms(s, func(r universe.Recipe) { c03Case(c, r, "pkg") })
+	}
 	for i := range universe.Structs {
 		s := &universe.Structs[i]
 		universe.Degenerate(s, universe.Gob, func(r universe.Recipe) { c03Case(c, r, "method") })
